@@ -448,7 +448,10 @@ class Twist3(SMTwist):
             >>> t = Twist3([1, 2, 3, 4, 5, 6])
             >>> t.v
         """
-        return self.data[0][:3]
+        if len(self) == 1:
+            return self.data[0][:3]
+        else:
+            return np.array([x[:3] for x in self.data])
 
     @property
     def w(self):
@@ -469,7 +472,10 @@ class Twist3(SMTwist):
             >>> t.w
 
         """
-        return self.data[0][3:6]
+        if len(self) == 1:
+            return self.data[0][3:6]
+        else:
+            return np.array([x[3:6] for x in self.data])
 
     # -------------------- variant constructors ----------------------------#
 
@@ -1256,7 +1262,10 @@ class Twist2(SMTwist):
             >>> t.v
 
         """
-        return self.data[0][:2]
+        if len(self) == 1:
+            return self.data[0][:2]
+        else:
+            return np.array([x[:2] for x in self.data])
 
     @property
     def w(self):
@@ -1277,7 +1286,10 @@ class Twist2(SMTwist):
             >>> t.w
 
         """
-        return self.data[0][2]
+        if len(self) == 1:
+            return self.data[0][2]
+        else:
+            return np.array([x[2] for x in self.data])
 
     # -------------------------  methods -------------------------------#
 
